@@ -12,7 +12,7 @@ from core import Stream, hexs, unhex
 
 ID = "C17"
 DESIGN_REF = "DESIGN.md section 5, C17"
-LEAN_TARGETS = ["PV.C17.Thm", "PV.C17.ReprRT", "PV.C17.Minimal"]
+LEAN_TARGETS = ["PV.C17.Thm", "PV.C17.ReprRT", "PV.C17.Minimal", "PV.C17.OfRatSound"]
 DRIVER = "drv_c17"
 HARNESS = {"bin": "pvh_c17", "features": "default"}
 THEOREMS = [
@@ -42,6 +42,12 @@ THEOREMS = [
     "PV.Dec.shortestInt_minimal",
     "PV.Dec.shortestAt_none_complete",
     "PV.Dec.shortestGo_first",
+    # the parser is sound: what parses to a double lies in its rounding interval (OfRatSound.lean)
+    "PV.Dec.shortest_minimal_all",
+    "PV.Dec.ofDecimal_sound",
+    "PV.Dec.ofDecimal_iff",
+    "PV.Dec.ofRat_cases",
+    "PV.Dec.roundHalfEven_sound",
     "PV.C17.hex_eq_py",
     "PV.C17.hex_roundtrip_partial",
     "PV.C17.hex_roundtrip_zero_inf",
@@ -95,15 +101,15 @@ PARTIAL = [
     "repr_roundtrip_partial (with the hypothesis) is kept as the string-layer lemma. DecFacts is still evaluated by the "
     "driver on every sampled finite double as a cross-check of the proof (coverage.dec_facts). What this is relative to: "
     "PV.Dec.shortest / ofDecimal as the contracts of Rust's {:e} and of lexical-parse-float (sampled, see below).",
-    "'is a shortest such rendering': PV.Dec.shortest_minimal proves, for every non-zero double and both tie rules, that "
-    "NO decimal inside the double's rounding interval (any digits < 10, any exponent) has fewer digits than "
-    "PV.Dec.shortest returns (shortestAt_none_complete: the two candidates examined per digit count are the only "
-    "multiples of that power of ten that can lie in the interval; shortestGo_first: the search returns the first count "
-    "that has one). Together with ofDecimal_of_mem (everything in the interval parses back) the repr digits are a "
-    "shortest decimal of the interval. Not proved: the converse of ofDecimal_of_mem (a decimal OUTSIDE the interval "
-    "does not parse to the double), so 'shortest among ALL round-tripping texts' is relative to that; and that Rust's "
-    "{:e}/Display (Grisu/Dragon) equals PV.Dec.shortest (sampled; the oracle also compares the digit count with "
-    "CPython's repr on every sampled double).",
+    "'is a shortest such rendering' is proved relative to PV.Dec: shortest_minimal_all - for every finite non-zero "
+    "double and both tie rules, NO digit string (digits < 10, any exponent, either sign) that PV.Dec.ofDecimal parses "
+    "back to the double is shorter than the digits PV.Dec.shortest returns. Built from shortest_minimal (no decimal "
+    "inside the rounding interval is shorter: shortestAt_none_complete, shortestGo_first) and ofDecimal_sound (a "
+    "decimal that parses to the double lies in its rounding interval, i.e. decimals outside parse to something else: "
+    "ofRat_cases, roundHalfEven_sound); ofDecimal_iff states parsing-to-bits = interval membership exactly, end-point "
+    "rule included. Still only sampled: that Rust's {:e}/Display (Grisu/Dragon) equals PV.Dec.shortest and "
+    "lexical-parse-float equals PV.Dec.ofDecimal (the oracle also compares the digit count with CPython's repr on "
+    "every sampled double).",
     "hex_roundtrip and hex_eq_py are proved for every double, relative to the model of hexf-parse's scanner and "
     "convert_hexf64 (modelled line by line incl. their u64/isize Inexact exits; tied to the crate by the from-hex "
     "streams).",
@@ -124,7 +130,8 @@ LEVEL_TEXT = ("Machine-checked Lean 4 theorems over an executable model of liter
               "texts); repr has Python's shape and special names; parse_str(to_string x) = x for every finite double with no "
               "hypothesis (the shortest digits lie in the double's rounding interval, and the correctly rounded decimal "
               "parser maps every decimal of that interval back to the double - both proved for all bit patterns); "
-              "the repr digits are minimal: no decimal of the rounding interval has fewer digits (shortest_minimal); "
+              "the repr digits are minimal: no digit string that parses back to the double is shorter (shortest_minimal_all; "
+              "parsing to a double = lying in its rounding interval, ofDecimal_iff); "
               "to_hex equals float.hex() for every double and from_hex(to_hex x) = x for every non-NaN double (through "
               "a line-by-line model of hexf-parse, with ofRat proved exact on representable values); the exponent "
               "suffix is sign + >= 2 digits and reads back; "
